@@ -90,6 +90,10 @@ pub fn text_for(construct: &str, n: usize) -> String {
         "long-comment-run" => format!("x{}+ y", " // c\n".repeat(n)),
         "long-metadata" => format!("{}x", (0..n).map(|i| format!("@k{}: i1;\n", i % 7)).collect::<String>()),
         "access-chain-bad-index" => format!("m{}.99999999999999999999", ".a".repeat(n)),
+        // a flat text whose evaluation moves a value nested n deep from one user function to another
+        "deep-fn-value" => format!("audit(load(i{n}))"),
+        "deep-fn-result" => format!("load(i{n})"),
+        "deep-fn-value-in-list" => format!("[i1, audit(load(i{n})), audit(load(i{n}))]"),
         _ => String::from("x"),
     }
 }
@@ -152,6 +156,45 @@ pub fn child(args: &[String]) -> ! {
                     }
                     "drop" => {
                         drop(e);
+                        std::process::exit(0);
+                    }
+                    "evaluate" if construct.starts_with("deep-fn-") => {
+                        // `load` builds its deep result without recursion, `audit` takes its argument
+                        // apart without recursion; neither is cacheable, so the evaluator only moves
+                        // the value
+                        use crate::checks::probe::{probe, Handler};
+                        let h: Handler = std::sync::Arc::new(|name, p| {
+                            if name == "load" {
+                                let n = match p {
+                                    Value::Int(n) => n as usize,
+                                    _ => 0,
+                                };
+                                let mut v = Value::Int(1);
+                                for _ in 0..n {
+                                    v = Value::Vec(vec![v]);
+                                }
+                                (Ok(v), 0)
+                            } else {
+                                let mut v = p;
+                                let mut depth = 0i128;
+                                while let Value::Vec(mut items) = v {
+                                    v = items.pop().unwrap_or(Value::None);
+                                    depth += 1;
+                                }
+                                (Ok(Value::Int(depth)), 0)
+                            }
+                        });
+                        let rs = ruleset()
+                            .with_rule(Rule::new("r", std::collections::BTreeMap::new(), e))
+                            .and_then(|b| b.with_function(probe("load", false, &h)))
+                            .and_then(|b| b.with_function(probe("audit", false, &h)));
+                        let rs = match rs {
+                            Ok(b) => b.build(),
+                            Err(_) => std::process::exit(2),
+                        };
+                        let r = crate::engine::exec::block_on(rs.evaluate_value(&facts));
+                        std::mem::forget(r);
+                        std::mem::forget(rs);
                         std::process::exit(0);
                     }
                     "evaluate" => {
@@ -256,6 +299,13 @@ pub fn run(tier: Tier) -> i32 {
             }
         }
     }
+    // deep *values* travelling between user functions during the evaluation of a flat text
+    for c in ["deep-fn-value", "deep-fn-result", "deep-fn-value-in-list"] {
+        for s in stacks {
+            cells.push((c, "evaluate", s));
+        }
+    }
+    rep.bound("deep_value_constructs", vec!["deep-fn-value", "deep-fn-result", "deep-fn-value-in-list"]);
     rep.bound("context_constructs", CONTEXTS.to_vec());
     // per cell: run the ladder upwards until the first crash (stack use is monotone in depth)
     let results: Vec<(usize, Option<(usize, String)>, u64, Option<usize>, Vec<String>)> = cells
